@@ -64,7 +64,7 @@ def gen_cases(ctx):
         per = 2
     ops += [0x2000 + ctx.rng.randrange(0x2000) for _ in range(300)]
     ops += [0x4130, 0x4303, 0x1300, 0x12b0, 0x1122, 0x1204, 0x40f2, 0x4292, 0xc312, 0xd232, 0x3fff, 0x3c00]
-    return _lines_for(ctx, ops, per, 0.55, 0.05), nstrata
+    return _lines_for(ctx, ops, per, 0.55, 0.05) + G.flag_boundary_cases(ctx.rng), nstrata
 
 
 def _line(case):
@@ -100,7 +100,67 @@ def _simrun_lines(ctx):
         for mc in (-1, 50) if p != [0x3fff] else (50,):
             out.append(G.line(regs, prog(p), "-", cmd="simrun").replace("simrun msp430 -", "simrun msp430 - %d" % mc, 1))
     out.append(G.line(regs, prog([0x40f2, 0x0005, 0x0000, 0x4130]), "0", cmd="simrun").replace("simrun msp430 0", "simrun msp430 0 -1", 1))
+    # call trees: every source addressing mode of CALL (the auto-run depth bookkeeping must count each of them)
+    trees = []
+    for i in range(ctx.scale(40, 400)):
+        words, cells, want = call_tree(ctx.rng, single_mode=CALL_MODES[i] if i < len(CALL_MODES) else None)
+        c = prog(words)
+        c.update(cells)
+        for a in range(0x7c0, 0x7f0):
+            c.setdefault(a, 0)
+        out.append(G.line(regs, c, "-", cmd="simrun").replace("simrun msp430 -", "simrun msp430 - -1", 1))
+        trees.append((out[-1], want))
+    ctx.notes["call_trees"] = trees
     return out
+
+
+CALL_MODES = ["imm", "reg", "ind", "indinc", "idx", "abs", "sym"]
+TABLE = 0x0200     # pointer table used by the indirect call modes: word j = address of function j
+
+
+def call_tree(rng, single_mode=None, at=0xf000):
+    """A routine (function 0) that calls functions 1..n (acyclic, i calls only j > i) through random CALL source modes;
+    each function adds a distinct power of two to r6 once per activation.  Returns (words, extra cells, expected r6)."""
+    n = rng.choice([1, 2, 2, 3, 4])
+    bodies = []
+    for i in range(n + 1):
+        calls = []
+        if i < n:
+            for j in sorted(rng.sample(range(i + 1, n + 1), rng.randrange(1, min(3, n - i) + 1))) if i else [1] + [
+                    j for j in range(2, n + 1) if rng.random() < 0.4]:
+                calls.append((j, single_mode or rng.choice(CALL_MODES)))
+        bodies.append(calls)
+    size = {"imm": 2, "abs": 2, "sym": 2, "reg": 3, "ind": 3, "indinc": 3, "idx": 4}
+    addr, a = [], at
+    for calls in bodies:
+        addr.append(a)
+        a += 2 * (2 + sum(size[m] for _, m in calls) + 1)      # add #k,r6 (2 words), calls, ret
+    words = []
+    for i, calls in enumerate(bodies):
+        words += [0x5036, 1 << i]                                   # add #(1<<i), r6
+        for j, m in calls:
+            here = at + 2 * len(words)
+            ptr = TABLE + 2 * j
+            if m == "imm": words += [0x12b0, addr[j]]
+            elif m == "abs": words += [0x1292, ptr]
+            elif m == "sym": words += [0x1290, (ptr - (here + 2)) & 0xffff]
+            elif m == "reg": words += [0x4035, addr[j], 0x1285]
+            elif m == "ind": words += [0x4035, ptr, 0x12a5]
+            elif m == "indinc": words += [0x4035, ptr, 0x12b5]
+            elif m == "idx": words += [0x4035, (ptr - 6) & 0xffff, 0x1295, 0x0006]
+        words.append(0x4130)
+    cells = {}
+    for j in range(n + 1):
+        cells[TABLE + 2 * j] = addr[j] & 255
+        cells[TABLE + 2 * j + 1] = addr[j] >> 8
+    act = [0] * (n + 1)
+    def visit(i):
+        act[i] += 1
+        for j, _ in bodies[i]:
+            visit(j)
+    visit(0)
+    want = sum(act[i] << i for i in range(n + 1)) & 0xffff
+    return words, cells, want
 
 
 def correspondence(ctx, corr):
@@ -244,6 +304,21 @@ def oracle(ctx, orc, focus=None):
         else:
             orc["failures"].append({"sig": j[0], "input": _line(c)[:1500], "expected": j[1], "observed": a[:400], "what": j[2],
                                     "replay_line": _line(c)})
+    # auto-run over call trees (every CALL source mode): the run must end at the routine's own final ret with r6 = the
+    # sum the call tree defines (the guide's CALL/RET semantics), not earlier and not by the cycle limit
+    trees = ctx.notes.get("call_trees")
+    if trees is None:
+        _simrun_lines(ctx)
+        trees = ctx.notes["call_trees"]
+    tans = ctx.impl([l for l, _ in trees])
+    stats["call_trees"] = len(trees)
+    for (l, want), a in zip(trees, tans):
+        orc["cases"] += 1
+        pa = G.parse_answer(a)
+        if pa.get("regs") is None or pa["regs"][6] != want or pa["regs"][1] != 0x0802:
+            orc["failures"].append({"sig": "C14:run:calltree", "input": l[:1500], "expected": "r6=%#x sp=0x802 at the final ret" % want,
+                                    "observed": a[:300], "what": "-run (auto_run) did not stop at the routine's final ret",
+                                    "replay_line": l})
     # process level: naken_util -run and -break_io (docs/simulating.md)
     tmp = ctx.tmpdir()
     progs = [
